@@ -66,6 +66,9 @@ def gen(rng, tier):
         cases.append({"op": "evaluate_f", "input": [fn, st], "stream": "float/" + fn[0]})
     for k in range(n):
         pool = G.ids_pool(rng, rng.randint(1, 6))
+        if rng.random() < 0.08:
+            # the extreme legal ids (u64::MAX and neighbours, 2^63): no id value may act as a sentinel
+            pool = sorted(set(pool[:-1]) | {rng.choice([2 ** 64 - 1, 2 ** 64 - 1, 2 ** 64 - 2, 2 ** 63, 2 ** 63 - 1])})
         p = G.rand_poly(rng, pool, max_deg=rng.choice([0, 1, 1, 2, 2, 2, 3, 4]))
         fn = G.render(rng, p, pool)
         ids = G.fn_ids(fn)
@@ -81,6 +84,15 @@ def gen(rng, tier):
             for drop in sorted(ids)[:3]:
                 st3 = [e for e in st if e[0] != drop]
                 cases.append({"op": "evaluate", "input": [fn, st3], "stream": "missing/" + fn[0]})
+    # every placement of the largest legal id in a quadratic message (row, column, diagonal, linear part only)
+    M = 2 ** 64 - 1
+    for j in (3, M - 1):
+        for rows, cols in (([M], [j]), ([j], [M]), ([M], [M]), ([M, j], [j, M]), ([j, M], [j, j]), ([M, M], [j, M])):
+            for lin in ([], [[[[j, f64(1.0)]], f64(0.5)]], [[[[M, f64(2.0)]], f64(0.0)]]):
+                fn = ["quad", [rows, cols, [f64(2.0)] * len(rows), lin]]
+                st = [[M, f64(4.0)], [j, f64(0.5)]]
+                cases.append({"op": "evaluate", "input": [fn, st], "stream": "maxid/quad"})
+                cases.append({"op": "evaluate", "input": [fn, [e for e in st if e[0] != M]], "stream": "maxid/missing"})
     return cases
 
 
